@@ -8,6 +8,7 @@ pub mod c05_revoke;
 pub mod c09_order;
 pub mod c10_restart;
 pub mod c12_serial;
+pub mod c19_mup;
 pub mod onchain;
 pub mod pay;
 
